@@ -4,8 +4,8 @@ from vcore import hexs
 
 ID = "C09"
 LEVEL = "proof"
-_T = ["pull_push", "sync_history", "pull_fail_state", "counter_wrap_rekeys", "push_chunk_layout", "short_rejected",
-      "pull_accept_mac", "macInput_injective", "advance_eq"]
+_T = ["push_state_ok", "push_chunk_layout", "pull_push", "rekey_state_ok", "sync_history", "short_rejected",
+      "pull_accept_mac", "macInput_injective", "advance_eq", "counter_wrap_rekeys"]
 THEOREMS = vcore.theorems_in("SodiumModel/Properties/C09.lean", _T, "Sodium.C09")
 IMPORTS = ["SodiumModel.Properties.C09"] if THEOREMS else ["SodiumModel.Model.Secretstream"]
 RULE = ("random histories (depth 40 quick / 400 thorough) over {push(tag, len, ad), explicit rekey, genuine pull, forged pull "
